@@ -268,7 +268,12 @@ class World:
             if not user:
                 return
             tgt = user[op[1] % len(user)]
-            tgt.label = "r%d" % (self.counter if op[2] else 0)
+            if len(op) > 3 and op[3]:
+                # labels are free: a number is accepted and stored as its text - assigning it again is not a rename
+                tgt.label = (7 if op[2] else 2.5)
+                self.kinds.add("rename:non-string")
+            else:
+                tgt.label = "r%d" % (self.counter if op[2] else 0)
             self.kinds.add("rename")
         elif kind == "update_id":
             if not d.main_components:
@@ -386,7 +391,7 @@ op = st.one_of(
     st.tuples(st.just("add"), st.sampled_from(["str", "dup", "cid", "existing", "derived", "wrongshape", "str", "derived"]), idx),
     st.tuples(st.just("remove"), idx),
     st.tuples(st.just("reorder"), st.sampled_from(["valid", "valid", "invalid"]), idx, idx),
-    st.tuples(st.just("rename"), idx, st.booleans()),
+    st.tuples(st.just("rename"), idx, st.booleans(), st.sampled_from([False, False, True])),
     st.tuples(st.just("update_id"), idx, st.sampled_from([0, 0, 1])),
     st.tuples(st.just("update_components"), idx, st.booleans()),
     st.tuples(st.just("refresh"), st.integers(0, 2), st.booleans(), st.integers(0, 3), st.integers(0, 1)),
